@@ -28,6 +28,7 @@ EXPLANATION = (
     "is-close-to-zero test; (D6) sum equality is order-insensitive, term equality compares coefficient and operators, "
     "no tolerance looser than 1e-8 is spelled; (D7) no arithmetic operation writes through self/other (effect analysis). "
     "(D2p) per-qubit phases read from COEFF_MAP inside a loop are multiplied into the running coefficient, never assigned over it."
+    " Round 4: no last-wins mapping built by a constructor from an operand's terms in PauliSum.__add__."
 )
 RULE_TEXT = "instances = 6 ordered operator pairs x {operator, phase}, 3 key-collision checks, multiplication dataflow obligations, (class, dunder, return path) linear forms, 65 exponents, simplify obligations, equality/tolerance sites, purity per (method, parameter)"
 ASSUMPTIONS = [
